@@ -290,8 +290,12 @@ class DataflowAnalysisAttacher(Transformer):
             arrays = [v for v in FindVariables().visit(outvals) if isinstance(v, Array)]
             dims = OrderedSet(v for a in arrays for v in self._symbols_from_expr(a.dimensions))
             for val in outvals:
+                # Symbols that only index into this argument are not defined by it; they
+                # may still be defined as another argument of the same call
+                val_arrays = [v for v in FindVariables().visit(val) if isinstance(v, Array)]
+                val_dims = OrderedSet(v for a in val_arrays for v in self._symbols_from_expr(a.dimensions))
                 exprs = self._symbols_from_expr(val)
-                defines |= OrderedSet(e for e in exprs if not e in dims)
+                defines |= OrderedSet(e for e in exprs if not e in val_dims)
                 uses |= dims
 
             uses |= OrderedSet(s for val in invals for s in self._symbols_from_expr(val))
